@@ -64,7 +64,7 @@ class NewtonGirardAdditiveKernel(Kernel):
         if not torch.is_tensor(value):
             value = torch.as_tensor(value).to(self.raw_outputscale)
 
-        self.initialize(raw_outputscale=self.outputscale_constraint.inverse_transform(value))
+        self.initialize(raw_outputscale=self.raw_outputscale_constraint.inverse_transform(value))
 
     def forward(self, x1, x2, diag=False, last_dim_is_batch=False, **params):
         """Forward proceeds by Newton-Girard formulae"""
